@@ -4,6 +4,8 @@ import (
 	"encoding/json"
 	"fmt"
 	"net"
+	"os"
+	"path/filepath"
 	"sort"
 	"strings"
 	"testing"
@@ -27,6 +29,24 @@ type c06Cap struct {
 	atEnd string // what the handed-out value read just before the handler returned (after it had gone on working)
 }
 
+// c06File: the file the capturing handler sends (in the check's scratch directory)
+var c06File = func() string {
+	if os.Getenv("VERIF_CASES") == "" {
+		return ""
+	}
+	dir := ""
+	if o := os.Getenv("VERIF_OUT"); o != "" {
+		dir = filepath.Dir(o)
+	}
+	f, err := os.CreateTemp(dir, "c06-*.txt")
+	if err != nil {
+		panic(err)
+	}
+	defer f.Close()
+	_, _ = f.WriteString("file content")
+	return f.Name()
+}()
+
 func aliasBytes(b []byte) string {
 	if len(b) == 0 {
 		return ""
@@ -35,8 +55,23 @@ func aliasBytes(b []byte) string {
 }
 
 func c06App(immutable bool, caps map[string]*c06Cap) fasthttp.RequestHandler {
-	app := fiber.New(fiber.Config{Immutable: immutable})
 	put := func(k, v string) { caps[k] = &c06Cap{alias: v, clone: strings.Clone(v)} }
+	app := fiber.New(fiber.Config{Immutable: immutable, ErrorHandler: func(c fiber.Ctx, err error) error {
+		// a request that matches no route ends here: the error handler is a handler like any other, what it takes from the
+		// context -- also the path reported by Route() -- is the request's
+		if strings.HasPrefix(c.Path(), "/nomatch/") {
+			put("routepath", c.Route().Path)
+			put("path", c.Path())
+			put("originalurl", c.OriginalURL())
+			put("method", c.Method())
+			put("header", c.Get("X-H"))
+			put("query", c.Query("q"))
+			for _, cp := range caps {
+				cp.atEnd = strings.Clone(cp.alias)
+			}
+		}
+		return c.Status(fiber.StatusNotFound).SendString("not found")
+	}})
 	h := func(c fiber.Ctx) error {
 		put("params", c.Params("p"))
 		put("path", c.Path())
@@ -90,6 +125,9 @@ func c06App(immutable bool, caps map[string]*c06Cap) fasthttp.RequestHandler {
 		_ = c.String()
 		c.Attachment(strings.Repeat("A", 30) + ".txt")
 		_, _ = c.GetRouteURL("capname", fiber.Map{"p": strings.Repeat("R", 30)})
+		// SendFile points the request at the file for a moment: what was taken before is still the request's
+		_ = c.SendFile(c06File)
+		c.Response().Reset()
 		c.Response().Header.Del("Content-Disposition")
 		c.Response().Header.Del("Link")
 		for _, cp := range caps {
@@ -113,6 +151,11 @@ func c06Request(shape, tag string, pad int) (raw string, expect map[string]strin
 		"ip": "203.0.113.9", "baseurl": "http://" + sub + ".example.com", "subdomains": sub, "genericquery": v("qval"), "genericquerybytes": v("qval"), "genericparams": v("pval"),
 		"bindquery": v("qname"), "bindheader": v("hname"), "bindcookie": v("cname"), "binduri": v("pval"), "rangetype": v("unit")}
 	switch shape {
+	case "unmatched":
+		path = "/nomatch/" + v("pval")
+		url = path + "?q=" + v("qval")
+		raw = "GET " + url + " HTTP/1.1\r\n" + hdrs + "\r\n"
+		expect = map[string]string{"routepath": path, "path": path, "originalurl": url, "method": "GET", "header": v("hval"), "query": v("qval")}
 	case "form":
 		body := "f=" + v("fval") + "&name=" + v("fname")
 		raw = "POST " + url + " HTTP/1.1\r\n" + hdrs + "Content-Type: application/x-www-form-urlencoded\r\nContent-Length: " + fmt.Sprint(len(body)) + "\r\n\r\n" + body
@@ -153,6 +196,11 @@ func TestC06(t *testing.T) {
 		h := c06App(cs.Immutable, caps)
 		rc := &fasthttp.RequestCtx{}
 		rc.Init2(fakeConn{&net.TCPAddr{IP: net.ParseIP("203.0.113.9"), Port: 4000}}, nil, false)
+		// a connection that has been in use: its buffers have grown (a long target was served on it before)
+		serveWire(rc, h, "GET /other/"+strings.Repeat("w", 300)+"/more?q="+strings.Repeat("W", 300)+" HTTP/1.1\r\nHost: warm.example.org\r\nX-H: "+strings.Repeat("W", 300)+"\r\n\r\n")
+		for k2 := range caps {
+			delete(caps, k2)
+		}
 		raw, expect := c06Request(cs.Shape, "C", 0)
 		serveWire(rc, h, raw)
 		var wrongAtCapture []string
